@@ -424,6 +424,11 @@ def gen_C07(tier, seed):
                         words += [["l", f"N{k}", "l", "n", "b"], ["b", f"B{k}", "l", "n"], [f"N{k}", f"B{k}", "l"]]
                     for w in sample(rng, words, 14 if tier == "quick" else 80):
                         b.case(elem, [root, f"@ remove_{kind} {i} {','.join(w) if w else '-'} drop", "@ dump", "@ lens"])
+                    # the drain consumed by value through fold / rfold (for_each, count, last, sum, rev().for_each …) after a prefix
+                    for w in sample(rng, words, 5 if tier == "quick" else 30):
+                        pre = [x for x in w if x != "h"][: rng.randrange(0, 4)]
+                        for fin in ("fold", "rfold"):
+                            b.case(elem, [root, f"@ remove_{kind} {i} {','.join(pre) if pre else '-'} {fin}", "@ dump", "@ lens"])
                 b.case(elem, [root, f"@ remove_{kind} {dim + 1} - drop", f"@ remove_{kind} {U64} n drop", "@ dump"] +
                        [x for wv in wrap_values(C) + wrap_values(R) for x in (f"@ remove_{kind} {wv} n drop", "@ dump")])
             # pop until empty and beyond
@@ -1137,7 +1142,7 @@ def hist_ops(rng, C, R, k, elem="u32"):
         newd = (C, R - 1) if ok else (C, R)
         if newd[1] == 0:
             newd = (0, 0)
-        return (f"@ remove_row {i} {w} drop", newd)
+        return (f"@ remove_row {i} {w} {rng.choice(['drop', 'drop', 'drop', 'fold', 'rfold'])}", newd)
     if choice < 0.46:
         i = maybe_bad(rng.randrange(C) if C else 0, C)
         w = ",".join(rng.choice(["n", "b", "l", "N1", "B1", "N0"]) for _ in range(rng.randrange(0, R + 2))) or "-"
@@ -1145,7 +1150,7 @@ def hist_ops(rng, C, R, k, elem="u32"):
         newd = (C - 1, R) if ok else (C, R)
         if newd[0] == 0:
             newd = (0, 0)
-        return (f"@ remove_col {i} {w} drop", newd)
+        return (f"@ remove_col {i} {w} {rng.choice(['drop', 'drop', 'drop', 'fold', 'rfold'])}", newd)
     if choice < 0.50:
         op = rng.choice(["pop_row", "pop_col"])
         if op == "pop_row":
@@ -1156,7 +1161,7 @@ def hist_ops(rng, C, R, k, elem="u32"):
             newd = (C - 1, R) if C else (C, R)
             if newd[0] == 0:
                 newd = (0, 0)
-        return (f"@ {op} n drop", newd)
+        return (f"@ {op} n {rng.choice(['drop', 'drop', 'fold', 'rfold'])}", newd)
     if choice < 0.53:
         return ("@ clear", (0, 0))
     if choice < 0.57:
